@@ -6,6 +6,7 @@ VERIF = os.path.dirname(os.path.dirname(os.path.abspath(__file__)))
 REPO = os.environ.get("VERIF_REPO", "/repo")
 REPO_SRC = os.path.join(REPO, "src")
 REPLAY_PY = os.environ.get("VERIF_REPLAY_PY", "/venv/bin/python")
+OUT = os.environ.get("VERIF_OUT", VERIF)           # where evidence/ and replays/ are written (seed experiments redirect it)
 NPROC = int(os.environ.get("VERIF_NPROC", "16"))
 SEED = int(os.environ.get("VERIF_SEED", "0") or 0)
 
@@ -274,14 +275,14 @@ class Run:
         obligations = len(self.results)
         discharged = st.get("discharged", 0)
         paths = []
-        os.makedirs(os.path.join(VERIF, "replays"), exist_ok=True)
+        os.makedirs(os.path.join(OUT, "replays"), exist_ok=True)
         seenv = set()
         for v in self.violations:
             h = hashlib.sha256(v["script"].encode()).hexdigest()[:12]
             if h in seenv or len(paths) >= 5:       # at most 5 replay files / VIOLATION lines per run
                 continue
             seenv.add(h)
-            path = os.path.join(VERIF, "replays", "%s-%s.json" % (self.prop, h))
+            path = os.path.join(OUT, "replays", "%s-%s.json" % (self.prop, h))
             json.dump({"property": self.prop, "name": v.get("name"), "detail": v.get("detail"),
                        "inputs": v.get("inputs"), "script": v["script"], "hashseed": v.get("hashseed"),
                        "replay_out": v.get("replay_out")}, open(path, "w"), indent=1, default=str)
@@ -326,8 +327,8 @@ class Run:
         ev = {"property_id": self.prop, "tier": self.tier, "seed": SEED, "level": self.level,
               "coverage": cov, "assumptions": self.assumptions, "wall_s": round(wall, 2),
               "violations": len(paths)}
-        os.makedirs(os.path.join(VERIF, "evidence"), exist_ok=True)
-        with open(os.path.join(VERIF, "evidence", "%s.json" % self.prop), "w") as f:
+        os.makedirs(os.path.join(OUT, "evidence"), exist_ok=True)
+        with open(os.path.join(OUT, "evidence", "%s.json" % self.prop), "w") as f:
             json.dump(ev, f, indent=1, default=str)
         print("%s tier=%s obligations=%d discharged=%d known=%d inconclusive=%d errors=%d violations=%d "
               "solver=%.1fs wall=%.1fs" % (self.prop, self.tier, obligations, discharged, st.get("known", 0),
